@@ -748,6 +748,7 @@ class Engine:
                 if src is None:
                     src = ast.unparse(stmt)
                 if src.startswith(prefix):
+                    self.ghost_hooks_fired = getattr(self, "ghost_hooks_fired", set()) | {prefix}
                     for o in outs:
                         if o.kind == "normal":
                             fn(self, o.st)   # ghost code: may only touch ghost variables / ghost heap fields
